@@ -35,6 +35,12 @@ def reply(ver, rid, status, s, key=KEY, alg=1, with_status=True, extra=b"", with
     return pdu.pdu_v1(0x200, tlv(0x202, body), alg, key)
 
 
+def echo_line(h, level, s, key=KEY):
+    """PDU v1: the honest response element, to be put beside the client's own request"""
+    body = tlv(0x01, be(1)) + tlv(0x04, be(0)) + s.body(None)
+    return "se %s %d %s %s" % (hx(h), level, hx(key), hx(tlv(0x202, body)))
+
+
 def line(h, level, ver, rep, label, key=KEY):
     return "s %s %d %d %s %s %s" % (hx(h), level, ver, hx(key), hx(rep), label)
 
@@ -58,6 +64,15 @@ def gen(rng, tier):
         g2 = aggregate(rng, h, level, anchor="none")                                                # no authentication record yet
         yield line(h, level, ver, reply(ver, 1, 0, g2), "ok" if height(g2, level) <= 255 else "levels-above-255")
         # every other behaviour of the server
+        # a caller's verification context that still holds another document's hash: the honest reply is accepted, a reply whose chains
+        # are for that other document is not
+        if rng.random() < 0.6:
+            other = bytes([alg]) + rng.randbytes(S.DLEN[alg])
+            yield "sp %s %d %d %s %s %s ok" % (hx(h), level, ver, hx(KEY), hx(R()), hx(other))
+            go = aggregate(rng, other, level)
+            if height(go, level) <= 255:
+                yield "sp %s %d %d %s %s %s chains-for-the-hash-in-the-caller's-context" % (hx(h), level, ver, hx(KEY), hx(reply(ver, 1, 0, go)), hx(other))
+        yield echo_line(h, level, good)            # PDU v1: the client's own header, request and MAC echoed, the response beside them
         yield line(h, level, ver, R(rid=rng.choice([0, 2, 3, 1 << 32, (1 << 64) - 1])), "foreign-request-id")
         st = rng.choice([0x101, 0x102, 0x103, 0x104, 0x105, 0x106, 0x107, 0x200, 0x300, 0x301, 5, 1 << 40])
         yield line(h, level, ver, R(status=st), "status-not-zero")
@@ -167,7 +182,7 @@ CONFIG.rule = ("op lines from one PRNG (VERIF_SEED). Document hashes SHA-256/384
                "asynchronous signing service on a scripted socket gets the same honest and deviating replies (statuses with only high bits set included). "
                "Oracle on "
                "the returned signature itself: parses, input hash = requested hash, first level correction >= requested level, internally consistent "
-               "for that hash; never a signature together with an error.")
+               "for that hash; never a signature together with an error. Also: the same through KSI_Signature_signAggregatedWithPolicy with a caller's verification context that still holds another document's hash (honest reply / reply whose chains are for that other hash); PDU v1 replies that echo the client's own header, request and MAC and carry a response beside them (se).")
 CONFIG.trusted_base = [
     "Lean 4.33.0 kernel; axioms propext, Classical.choice, Quot.sound only",
     "PDU authentication is C06's model, the typed parser C10's, internal verification C01's; the hash-algorithm table is generated from hash.c",
